@@ -280,6 +280,8 @@ def monitor_script(prop_mod, script_text, builds, wd, res, shard_desc, timeout=6
             if r.status == "missing":
                 res.inconclusive.append("op %d has no record in the %s log" % (r.id, bname))
                 continue
+            if r.status == "bad" and "not_set" in (r.cat or "") and _dep_failed(r, recs):
+                continue  # operand is the value of a call that (legitimately or not) produced none; judged there
             if r.status == "bad":
                 res.inconclusive.append("harness error on op %d (%s): %s" % (r.id, r.line[:120], r.cat))
                 continue
@@ -299,6 +301,16 @@ def monitor_script(prop_mod, script_text, builds, wd, res, shard_desc, timeout=6
             if len(res.violations) > 50:
                 break
     return res
+
+
+def _dep_failed(r, recs):
+    import re
+    for t in r.toks:
+        for m in re.finditer(r"\$(\d+)", t):
+            d = recs.get(int(m.group(1)))
+            if d is None or d.status != "ok" or not d.outs:
+                return True
+    return False
 
 
 def _shard_entry(a):
